@@ -1,14 +1,15 @@
 (* Properties/C03.v - statements only.
    C03: Set stores the value at the path and changes nothing else.
    [set_method] is the model of the emitted Set / SetWithBuffer on the value behind a *T
-   (Model/SetEmit.v: writeNode in set mode AFTER the five fix: commits of findings/C03.txt),
+   (Model/SetEmit.v: writeNode in set mode AFTER the six fix: commits of findings/C03.txt;
+   [set_method_old] is the emitter before the last of them, 2f8b339),
    [nav] the native navigation (Spec/Nav.v), [offb E] the frame relation of Spec/SetSpec.v:
    everything off the path is what it was (containers and entries on the path possibly created),
    the element the path ends at related by E.  [E_end s buf] is what happens there: a scalar,
    string or bytes element holds the leaf conversion of the assigned value (nothing behind a nil
    pointer), a container is what it was or has been created.  [sound_set] is the decidable
-   fragment: a map entry that is a struct held by value has scalar/string/bytes fields only, no
-   []byte and no map held by value as slice element, no []byte as map value. *)
+   fragment: no []byte and no map held by value as slice element, no []byte as map value.  (A map
+   entry that is a struct held by value may have any fields since 2f8b339.) *)
 From Coq Require Import List Bool String Ascii ZArith Arith Floats.SpecFloat.
 From Verif Require Import Util Ints Floats Node GoSrc Value Outcome Nav LCSound SetEmit SetSpec SetSound SetMono SetGet SetHist SetHistSound Shapes GenUnits GenC03 GenC03x GenC03b.
 From Verif Require Buffer ConvTexts.
@@ -113,19 +114,23 @@ Theorem C03_history_texts_stable : forall cs pre size k isstr d e,
 Proof. exact ConvTexts.conv_texts_stable. Qed.
 Print Assumptions C03_history_texts_stable.
 
-(* Outside the sound fragment the (repaired) emitter still loses updates: below a non-scalar field
-   of a struct that is held BY VALUE in a map the assignment goes to a copy of the entry that is
-   never stored back.  (Open finding nested_in_map_entry: the stream c03x runs the real generated
-   inspectors of two such types, Gen/GenC03x.v, and observes exactly this.) *)
+(* What the emitter did BEFORE fix 2f8b339 ([set_method_old]; finding nested_in_map_entry, now fixed):
+   below a non-scalar field of a struct that is held BY VALUE in a map the assignment went to a copy
+   of the entry that was never stored back - the call returned nil and the object was what it had
+   been, although the text fixes another one.  The repaired emitter ([set_method]) keeps the
+   store-back of the entry pending for all the code below it and yields exactly the demanded
+   object; the node is inside the sound fragment now, so the theorems above cover it.  (The stream
+   c03x runs the real generated inspectors of such types, Gen/GenC03x.v.) *)
 Theorem C03_refuted_nested_in_map_entry : exists n v path s,
-  wfn n = true /\ root_ok n = true /\ wtb n v = true /\ sound_set n = false /\
-  set_method n v path s true = Ret v None /\
-  exists o, set_demand n v path (aval_of s) = Some o /\ o <> v.
+  wfn n = true /\ root_ok n = true /\ wtb n v = true /\ sound_set n = true /\
+  set_method_old n v path s true = Ret v None /\
+  exists o, set_demand n v path (aval_of s) = Some o /\ o <> v /\
+            set_method n v path s true = Ret o None.
 Proof.
   exists (root_node ("T", TMap (TScalar SString) (TNamed "Rec" (TStruct [("N", Shapes.leaf)])))),
          (VMap false [(VStr "a", VStruct [VStruct [VInt 1; VStr ""; VBytes true [] 0; VFloat (S754_zero false)]])]),
          ["a"; "N"; "A"], (SrcInt KInt32 9).
-  vm_compute. repeat split; try reflexivity. eexists. split; [reflexivity|discriminate].
+  vm_compute. repeat split; try reflexivity. eexists. split; [reflexivity|]. split; [discriminate|reflexivity].
 Qed.
 Print Assumptions C03_refuted_nested_in_map_entry.
 
@@ -135,9 +140,10 @@ Example C03_units_sound :
   forallb (fun u => wfn (root_node u) && sound_set (root_node u) && root_ok (root_node u)) (supported_units 0) = true.
 Proof. vm_compute. reflexivity. Qed.
 
-(* the two own units of the stream c03x are well-formed and outside the sound fragment *)
-Example C03_xunits_unsound :
-  forallb (fun u => wfn (root_node u) && root_ok (root_node u) && negb (sound_set (root_node u))) xunits = true.
+(* the own units of the stream c03x (structs held by value as map entries with nested structs,
+   pointers, slices and maps below them) are well-formed and inside the sound fragment *)
+Example C03_xunits_sound :
+  forallb (fun u => wfn (root_node u) && root_ok (root_node u) && sound_set (root_node u)) xunits = true.
 Proof. vm_compute. reflexivity. Qed.
 
 (* the two own units of the stream c03b (an element of every integer and float kind outside the
